@@ -223,6 +223,13 @@ func deref(cur any) (any, string, bool) {
 			cur = *p
 		default:
 			isRowPtr := false
+			if d, isPtr, isNil := derefPage(cur); isPtr {
+				if isNil {
+					return nil, rNilPointer, thru
+				}
+				cur = d
+				break
+			}
 			for _, rk := range rowKinds {
 				if d, isPtr, isNil := rk.derefp(cur); isPtr {
 					if isNil {
@@ -263,6 +270,9 @@ func index(cur any, st Step) (any, string, string) {
 		return v, o, kind
 	}
 	if v, o, kind, isEmb := indexEmbed(cur, st.K, pfx); isEmb {
+		return v, o, kind
+	}
+	if v, o, kind, isPage := indexPage(cur, st.K, pfx); isPage {
 		return v, o, kind
 	}
 	for _, rk := range rowKinds {
@@ -596,6 +606,9 @@ func validStepsFor(cur any, avoid func(id string) bool) []string {
 
 // validSteps lists the step texts that reach an element of cur (sorted, deterministic).
 func validSteps(cur any) []string {
+	if valid, _, ok := pageSteps(cur); ok {
+		return valid
+	}
 	if keys, _, _, ok := intMapInfo(cur); ok {
 		return intMapValid(keys)
 	}
@@ -715,6 +728,9 @@ func isMapSS(cur any) bool {
 // an open known finding whose region the candidate steps would fall into; when it returns true
 // those steps are left out.
 func invalidSteps(cur any, avoid func(id string) bool) []string {
+	if _, invalid, ok := pageSteps(cur); ok {
+		return invalid
+	}
 	if isMapSS(cur) && avoid != nil && avoid(kfMapSS) {
 		return nil // missing key of a map[string]string: region of the open finding
 	}
